@@ -211,11 +211,42 @@ func (r *trRun) behaviour(b Behaviour) {
 		r.res.Inconclusive = append(r.res.Inconclusive, b.ID+": "+err.Error())
 		return
 	}
-	msgCh, err := topic.WatchMessages(ctx)
+	msgCtx, stopMsgs := context.WithCancel(ctx)
+	defer stopMsgs()
+	msgCh, err := topic.WatchMessages(msgCtx)
 	if err != nil {
 		r.res.Inconclusive = append(r.res.Inconclusive, b.ID+": "+err.Error())
 		return
 	}
+	defer func() {
+		// the reader of the topic goes away (its store is closed): the adapter gives its subscription back, or the other
+		// peers never see this peer leave the topic (and, when it comes back, never see it join)
+		stopMsgs()
+		r.res.Comparisons++
+		deadline := time.Now().Add(2 * time.Second)
+		for {
+			open := 0
+			net.mu.Lock()
+			for _, s := range net.subs["t"] {
+				if s.node == me {
+					select {
+					case <-s.sub.closed:
+					default:
+						open++
+					}
+				}
+			}
+			net.mu.Unlock()
+			if open == 0 {
+				return
+			}
+			if time.Now().After(deadline) {
+				r.violate(len(b.Steps), "membership", fmt.Sprintf("%d subscription(s) of the adapter to the topic are still open 2 s after its reader's context ended: the peer never leaves the topic", open), 0, open)
+				return
+			}
+			time.Sleep(10 * time.Millisecond)
+		}
+	}()
 	waitAsked := func() bool {
 		select {
 		case <-me.asked:
